@@ -328,6 +328,17 @@ theorem none_result {V : Type} (cv : Conv V) (cfg : Cfg V) (s : Sheet)
       have hok := attr_ok cv _ cfg.known curs[i] r sl s' attrs[k] (hsall k r sl hr hsl') hso _ hinit
       exact ⟨r, attrs[k], _, hr, AttrOk.mono cv _ _ _ _ hold _ r _ hok, hnone _ hmem⟩
 
+/-- Rows without a key. If the class has key attributes and the key cells of a (substituted) data
+row are all blank (`cell.value is None`), the row is answered with `None` — whatever the other cells
+of the row hold and whatever the converters would make of them (`cv` is arbitrary: nothing is
+converted), so a heading or totals line never ends the table with a conversion error. -/
+theorem blank_key_row {V : Type} (cv : Conv V) (numId : Nat) (rules : List (Rule V))
+    (slots : List Slot) (k : Nat) (row : Row) (srcs : List Src)
+    (hs : mapE (srcOf row) slots = .ok srcs) (hn : 0 < numId)
+    (hb : ∀ s ∈ srcs.take numId, ∃ c, s = .cell c ∧ c.val = .blank) :
+    construct cv numId rules slots k row = .ok none :=
+  construct_keyless cv numId rules slots k row srcs hs hn hb
+
 /-- The wording of the property for a worksheet whose coordinates are pairwise distinct: an
 attribute whose reported origin (`get_attr_origin(attr)`, resp. `get_attr_origin(attr, key)` of a
 ranged attribute) is the coordinate `c` is the conversion of *the* cell of the sheet at `c`. -/
